@@ -993,7 +993,9 @@ def gen_spf(rng, tier):
     cite = 'RFC 7208 4.6.1/12'
     texts = [b'v=spf1 -all', b'v=spf1 include:_spf.example.com ~all', b'v=spf1 a mx ptr ip4:192.0.2.0/24 ip6:2001:db8::/32 -all',
              b'v=spf1 a:mail.example.com/28 mx:example.org exists:%{i}.bl.example ?all', b'v=spf1 redirect=_spf.example.com',
-             b'v=spf1 mx -all exp=explain.example.com', b'v=spf1']
+             b'v=spf1 mx -all exp=explain.example.com', b'v=spf1',
+             # dual-cidr-length directly behind the mechanism name (no domain-spec), RFC 7208 5.3 / 5.4
+             b'v=spf1 a/24 mx//64 -all', b'v=spf1 +a/16//48 ~mx/24 ?all', b'v=spf1 a/0 mx/32//128 a:d.example//64 -all']
     cases = []
     for text in texts:
         try:
